@@ -849,6 +849,9 @@ func main() {
 	// new sql.Ctx, as Tail does on every tick.
 	rt0 := time.Now()
 	reSet := append(append([]Spec(nil), all...), pipelineSpecs()...)
+	attrSet := traceqlAttrSpecs() // TraceQL attribute-name alphabet in aggregator / condition position
+	reSet = append(reSet, attrSet...)
+	r.Extra["reexec_traceql_attr_alphabet_specs"] = len(attrSet)
 	reCases, reRejected := int64(0), int64(0)
 	benign := map[string]int{}
 	chsimVerdicts := map[string]int{}
